@@ -11,7 +11,7 @@ class C09(pure.Spec):
                 "C09_append_push"]
     crate = "pure"
     binary = "vh-pure"
-    design_ref = "DESIGN.md §4 C09"
+    design_ref = "DESIGN.md §5 C09"
     rule = ("cases: (1) frames built through every public constructor over boundary field values and host/payload "
             "lengths {0..9,254..257,random<600}, encoded via Vec/Bytes and decoded via &[u8]/Bytes/Vec<u8>; "
             "(2) byte strings: every first byte x lengths 0..16 x 6 fills, all tails over {00,01,03,ff} up to length 9 "
